@@ -99,7 +99,8 @@ class Prop(BaseProp):
                 inner = FAMILIES[dec](r, core)
             return FAMILIES[mbre](r, inner), inner
         b = Builder(rng, p_doc=0.5, max_depth=4, max_items=4, mkparam=mkparam, compound_generic=False,
-                    kinds=["cpp_class", "cpp_class", "cpp_class", "function", "plain", "set", "block"])
+                    kinds=["cpp_class", "cpp_class", "cpp_class", "function", "plain", "set", "block"], p_clone=0.08,
+                    class_arg_variants=True)
         nr = self.NR[self.tier]
         if idx < nr:
             mod = b.module()
@@ -130,7 +131,7 @@ class Prop(BaseProp):
                     for i in chosen:
                         it.doc.append(f"{{L{it.uid}.{len(it.doc)}}}")
                         it.doc[-1] = f":type {it.gt['params'][i]}: handwritten {it.doc[-1]}"
-                    handwritten[it.uid] = set(chosen)
+                    handwritten[id(it)] = set(chosen)
         if handwritten:
             text = render(mod, Layout(rng, comments=0.1, wild=0.2, case="random"))
             res.count("members_with_handwritten_type_lines", len(handwritten))
@@ -149,9 +150,8 @@ class Prop(BaseProp):
         for it in mod.items:
             if it.kind == "cpp_class":
                 res.see("class_depths", depth_of(it, 1))
-        for e in classes:
-            n = matched.get(e.uid)
-            if n is None:
+        for e, n in matched.pairs:
+            if e.kind != "class":
                 continue
             res.count("classes_checked")
             if n.arg != e.name:
@@ -164,9 +164,8 @@ class Prop(BaseProp):
             got_b = [l for l in lines if l.startswith("Bases:")]
             if (want_b is None and got_b) or (want_b is not None and got_b != [want_b]):
                 res.violate("bases", f"class {e.name}: {got_b} expected {want_b!r}", None)
-            for m in e.methods + e.ctors:
-                c = sub.get(m.uid)
-                if c is None:
+            for m, c in sub.pairs:
+                if m.kind not in ("method", "ctor"):
                     continue
                 res.count("members_checked")
                 variadic = "args" in m.types
@@ -189,7 +188,7 @@ class Prop(BaseProp):
                                 f"{m.item.impl.cmd}", None)
                 # type pairing, position-wise
                 tl = [l.strip() for l in c.text_lines()]
-                hw = handwritten.get(m.uid, set())
+                hw = handwritten.get(id(m.item), set())
                 for i in range(min(len(m.types), len(m.params))):
                     if i in hw:
                         continue      # the author documented this one; only the others are asserted
@@ -202,9 +201,8 @@ class Prop(BaseProp):
                 extra = [l for l in tl if l.startswith(":type ") and "handwritten" not in l]
                 if len(extra) != min(len(m.types), len(m.params)) - len(hw):
                     res.violate("method-type-count", f"{m.name}: {extra}", None)
-            for a in e.attrs:
-                c = sub.get(a.uid)
-                if c is None:
+            for a, c in sub.pairs:
+                if a.kind != "attr":
                     continue
                 res.count("members_checked")
                 opts = [l.strip() for l in c.text_lines() if l.strip().startswith(":value:")]
